@@ -21,6 +21,30 @@ class Infra(Exception):
     """infrastructure failure: exit 2, never a violation"""
 
 
+class HarnessTimeout(BaseException):
+    """wall-clock budget of the harness run exhausted (BaseException so that `except Exception` in a module
+    cannot swallow it): the verdict is derived from what has been collected so far"""
+
+
+def _on_alarm(signum, frame):
+    raise HarnessTimeout()
+
+
+def run_with_deadline(fn, seconds):
+    """run fn() under a wall-clock limit; returns True when it finished, False when the limit was hit"""
+    import signal
+    old = signal.signal(signal.SIGALRM, _on_alarm)
+    signal.setitimer(signal.ITIMER_REAL, seconds, 2.0)   # repeating: a bare `except:` in the code under test may swallow one
+    try:
+        fn()
+        return True
+    except HarnessTimeout:
+        return False
+    finally:
+        signal.setitimer(signal.ITIMER_REAL, 0)
+        signal.signal(signal.SIGALRM, old)
+
+
 def log(*a):
     print('[check]', *a, file=sys.stderr, flush=True)
 
@@ -355,15 +379,28 @@ def run_check(prop, tier, replay=None):
     ctx.replay = replay
     try:
         try:
-            mod.run(ctx)
-            if ctx.disagreements and not ctx.violations and not ctx.tie_broken:
+            limit = int(os.environ.get('VERIF_HARNESS_LIMIT', '0') or 0) or (3600 if tier == 'thorough' else 300)
+            timed_out = not run_with_deadline(lambda: mod.run(ctx), limit)
+            if timed_out:
+                # a change to the implementation can make it arbitrarily slow (or the search space explode): stop,
+                # and judge by what has been collected so far
+                ctx.notes.append(f'harness wall-clock budget of {limit}s exhausted; verdict from what was collected so far')
+                log(f'{prop}: harness wall-clock budget of {limit}s exhausted')
+                if ctx.driver:
+                    ctx.driver.close()
+                if not ctx.violations and not ctx.disagreements and not ctx.tie_broken:
+                    raise Infra(f'harness did not finish within {limit}s and found nothing (timeout)')
+            if not timed_out and ctx.disagreements and not ctx.violations and not ctx.tie_broken:
                 # correspondence broke during the run: search again at 10x budget for a failing input
                 log(f'{prop}: model and implementation differ; searching again at 10x budget for a failing input')
                 first = ctx
                 ctx = Ctx(prop, tier, seed + 7919, first.driver, True, tie_scale)
                 ctx.replay = replay
                 ctx.disagreements = list(first.disagreements)
-                mod.run(ctx)
+                if not run_with_deadline(lambda: mod.run(ctx), limit):
+                    ctx.notes.append(f'second pass stopped at the wall-clock budget of {limit}s')
+                    if ctx.driver:
+                        ctx.driver.close()
                 ctx.notes.append(f'second pass at 10x budget after {len(first.disagreements)} correspondence disagreement(s)')
         finally:
             if ctx.driver:
